@@ -1,1 +1,607 @@
-//! C03 harnesses.
+//! C03 — a subscriber never observes an uncommitted, torn or half-written frame.
+//! Producer side (this file): the memory left behind by an append that is stopped forever after its k-th shared-memory
+//! access (k symbolic) satisfies `commit_complete`; the ordering-class discipline on the frame length word (trace
+//! monitor); `term_reader::read` against a term whose tail is arbitrary garbage behind a non-positive length word; one
+//! interference instance (a complete append of publisher B injected at a symbolic access of publisher A).
+//! The `Image` poll family with a havocked tail lives in c05.rs (`c05_havoc_*`).
+//! Regime R2: 256-byte term, separate small meta buffer, every frame offset and length concrete per instance; term id,
+//! session/stream ids, payload bytes, prior term contents below the tail, crash point and fragment limit symbolic.
+//! Oracle: the Aeron frame layout as literal offsets (c01.rs `frame_ok`) and the closed-form frame placement.
+use super::c01::{rd_i32, rd_i64, rd_u16, reserved_for, supplier, Log, PAYLOAD, T};
+use super::hook;
+use super::util::*;
+use crate::concurrent::atomic_buffer::AtomicBuffer;
+use crate::concurrent::logbuffer::buffer_claim::BufferClaim;
+use crate::concurrent::logbuffer::exclusive_term_appender::ExclusiveTermAppender;
+use crate::concurrent::logbuffer::header::{Header, HeaderWriter};
+use crate::concurrent::logbuffer::term_appender::TermAppender;
+use crate::concurrent::logbuffer::term_reader;
+
+const DATA: u16 = 1;
+const PAD: u16 = 0;
+const BEGIN: u8 = 0x80;
+const END: u8 = 0x40;
+
+/// A log as the driver hands it over: arbitrary earlier frames below the tail, ZERO from the tail on (so that
+/// "0, negative, or positive-and-complete" is a meaningful statement about the claimed range).
+fn log_zero_beyond(tail: i32) -> Log {
+    let below: [u8; T] = kani::any();
+    let mut content = [0u8; T];
+    let t = tail as usize;
+    content[..t].copy_from_slice(&below[..t]);
+    let (session, stream, term_id): (i32, i32, i32) = (kani::any(), kani::any(), kani::any());
+    let mut l = Log { term: Mem(content), before: content, meta: Mem::zeroed(), hdr: Mem::zeroed(), term_id, session, stream };
+    l.hdr.buf().put::<i32>(12, session);
+    l.hdr.buf().put::<i32>(16, stream);
+    l.meta.buf().put::<i64>(0, pack_tail(term_id, tail));
+    l
+}
+
+#[derive(Copy, Clone, PartialEq)]
+enum Op {
+    Unfrag,
+    Frag,
+    ClaimCommit,
+    ClaimAbort,
+}
+
+/// One frame slot of the final stream: where it sits and what it must contain once its length word is positive.
+#[derive(Copy, Clone)]
+struct Slot {
+    off: usize,
+    flen: i32,
+    ty: u16,
+    flags: u8,
+    reserved: i64,
+    src_at: usize,
+    plen: usize,
+}
+
+const NO_SLOT: Slot = Slot { off: 0, flen: 0, ty: 0, flags: 0, reserved: 0, src_at: 0, plen: 0 };
+
+struct Plan {
+    slots: [Slot; 3],
+    ns: usize,
+    /// range the operation may write: [lo, hi)
+    lo: usize,
+    hi: usize,
+    /// amount the raw tail advances
+    required: i32,
+    padding: bool,
+}
+
+/// Closed-form placement of the frames of one operation (protocol, not the implementation's helpers).
+fn plan(op: Op, tail: i32, len: i32) -> Plan {
+    let mut slots = [NO_SLOT; 3];
+    let required: i32 = match op {
+        Op::Frag => {
+            let full = len / PAYLOAD;
+            let rem = len % PAYLOAD;
+            full * (PAYLOAD + 32) + if rem > 0 { align32(32 + rem as i64) as i32 } else { 0 }
+        }
+        _ => align32(32 + len as i64) as i32,
+    };
+    let t = tail as usize;
+    if tail + required > T as i32 {
+        // the message does not fit: exactly one padding frame fills the remainder; only its header is written
+        slots[0] = Slot { off: t, flen: T as i32 - tail, ty: PAD, flags: BEGIN | END, reserved: 0, src_at: 0, plen: 0 };
+        return Plan { slots, ns: 1, lo: t, hi: t + 32, required, padding: true };
+    }
+    let mut ns = 1;
+    match op {
+        Op::Unfrag => {
+            slots[0] = Slot { off: t, flen: 32 + len, ty: DATA, flags: BEGIN | END, reserved: reserved_for(tail, 32 + len), src_at: 0, plen: len as usize };
+        }
+        Op::ClaimCommit => {
+            slots[0] = Slot { off: t, flen: 32 + len, ty: DATA, flags: BEGIN | END, reserved: 0, src_at: 0, plen: len as usize };
+        }
+        Op::ClaimAbort => {
+            slots[0] = Slot { off: t, flen: 32 + len, ty: PAD, flags: BEGIN | END, reserved: 0, src_at: 0, plen: 0 };
+        }
+        Op::Frag => {
+            ns = ((len + PAYLOAD - 1) / PAYLOAD) as usize;
+            let mut i = 0;
+            while i < ns {
+                let done = PAYLOAD * i as i32;
+                let plen = if len - done < PAYLOAD { len - done } else { PAYLOAD };
+                let off = tail + (PAYLOAD + 32) * i as i32;
+                let flags = (if i == 0 { BEGIN } else { 0 }) | (if i == ns - 1 { END } else { 0 });
+                slots[i] = Slot { off: off as usize, flen: 32 + plen, ty: DATA, flags, reserved: reserved_for(off, 32 + plen), src_at: done as usize, plen: plen as usize };
+                i += 1;
+            }
+        }
+    }
+    Plan { slots, ns, lo: t, hi: t + required as usize, required, padding: false }
+}
+
+/// Run one complete publisher operation (as Publication / ExclusivePublication drive the appenders) under the hook:
+/// stopped forever at access `crash_at`, `env` injected before access `env_at`, trace recorded if `trace`.
+/// Returns the number of top-level shared-memory accesses of the operation.
+#[allow(clippy::too_many_arguments)]
+fn run_op(l: &mut Log, excl: bool, op: Op, tail: i32, src: &mut [u8; 96], len: i32, crash_at: u32, env_at: u32, env: Option<fn()>, trace: bool) -> u32 {
+    let hw = HeaderWriter::new(l.hdr.buf());
+    let srcbuf = AtomicBuffer::new(src.as_mut_ptr(), 96);
+    let mut claim = BufferClaim::default();
+    let mut claimed = false;
+    hook::begin(crash_at, env_at, env, trace);
+    if excl {
+        let mut a = ExclusiveTermAppender::new(l.term.buf(), l.meta.buf(), 0);
+        match op {
+            Op::Unfrag => {
+                a.append_unfragmented_message(l.term_id, tail, &hw, srcbuf, 0, len, supplier);
+            }
+            Op::Frag => {
+                a.append_fragmented_message(l.term_id, tail, &hw, srcbuf, 0, len, PAYLOAD, supplier);
+            }
+            _ => {
+                claimed = a.claim(l.term_id, tail, &hw, len, &mut claim) > 0;
+            }
+        }
+    } else {
+        let a = TermAppender::new(l.term.buf(), l.meta.buf(), 0);
+        match op {
+            Op::Unfrag => {
+                vok!(a.append_unfragmented_message(&hw, &srcbuf, 0, len, supplier, l.term_id), "C03: append with the matching term id returns a result");
+            }
+            Op::Frag => {
+                vok!(a.append_fragmented_message(&hw, &srcbuf, 0, len, PAYLOAD, supplier, l.term_id), "C03: append with the matching term id returns a result");
+            }
+            _ => {
+                claimed = vok!(a.claim(&hw, len, &mut claim, l.term_id), "C03: claim with the matching term id returns a result") > 0;
+            }
+        }
+    }
+    if claimed {
+        // the publisher fills the claimed range, then commits or aborts
+        claim.buffer().put_bytes(32, &src[..len as usize]);
+        if op == Op::ClaimAbort {
+            claim.abort();
+        } else {
+            claim.commit();
+        }
+    }
+    hook::end()
+}
+
+/// `commit_complete` (DESIGN 3.2). Returns the number of committed (positive) slots.
+fn commit_complete(l: &Log, p: &Plan, src: &[u8; 96]) -> usize {
+    let mut committed = 0;
+    let mut prev_committed = true;
+    let mut i = 0;
+    while i < p.ns {
+        let s = p.slots[i];
+        let w = rd_i32(&l.term.0, s.off);
+        assert!(w == 0 || w == -s.flen || w == s.flen, "C03: at every stopping point a frame's length word is 0 (unclaimed), -length (claimed) or +length (committed)");
+        if w > 0 {
+            assert!(prev_committed, "C03: frames commit in stream order: a committed frame is never preceded by an uncommitted one");
+            assert!(l.frame_ok(s.off, s.flen, s.ty, s.flags, Some(s.reserved)), "C03: a positive length word implies the whole header is final (version, flags, type, term offset, ids, reserved value)");
+            if s.plen > 0 {
+                let j: usize = kani::any();
+                kani::assume(j < s.plen);
+                assert!(l.term.0[s.off + 32 + j] == src[s.src_at + j], "C03: a positive length word implies every payload byte is already the source byte");
+            }
+            committed += 1;
+        }
+        prev_committed = w > 0;
+        i += 1;
+    }
+    assert!(l.unchanged_outside(p.lo, p.hi), "C03: nothing outside the claimed range is written at any stopping point");
+    committed
+}
+
+const KMAX: u32 = 24;
+
+macro_rules! crash_points {
+    ($name:ident, $excl:expr, $op:expr, $tail:expr, $len:expr, $between:expr) => {
+        #[kani::proof]
+        fn $name() {
+            pretouch();
+            let (excl, op, tail, len): (bool, Op, i32, i32) = ($excl, $op, $tail, $len);
+            let mut l = log_zero_beyond(tail);
+            let mut src: [u8; 96] = kani::any();
+            let p = plan(op, tail, len);
+            let k: u32 = kani::any();
+            kani::assume(k <= KMAX);
+            let n = run_op(&mut l, excl, op, tail, &mut src, len, k, u32::MAX, None, false);
+            assert!(n <= KMAX, "C03: harness bound: the operation has at most KMAX shared-memory accesses");
+            let committed = commit_complete(&l, &p, &src);
+            let t = l.raw_tail();
+            assert!(t == pack_tail(l.term_id, tail) || t == pack_tail(l.term_id, tail + p.required), "C03: the raw tail is either untouched or advanced by exactly the claimed length");
+            if k >= n {
+                assert!(committed == p.ns && t == pack_tail(l.term_id, tail + p.required), "C03: an append that runs to completion commits every frame it claimed");
+            }
+            if k == 0 {
+                assert!(t == pack_tail(l.term_id, tail) && rd_i32(&l.term.0, tail as usize) == 0, "C03: a publisher stopped before its first access leaves the log untouched");
+            }
+            kani::cover!(k == 0, "[must] stopped before the first store");
+            kani::cover!(k == 1 && rd_i32(&l.term.0, tail as usize) == 0, "[must] stopped after the tail moved, before the frame was claimed: zero length word behind the tail");
+            kani::cover!(k == $between && rd_i32(&l.term.0, tail as usize) < 0, "[must] stopped between header and payload / commit: negative length word");
+            kani::cover!(k == n - 1 && committed == p.ns - 1, "[must] stopped just before the final commit");
+            kani::cover!(k >= n && committed == p.ns, "[must] complete run");
+        }
+    };
+}
+
+fn commit_or_abort() -> Op {
+    if kani::any() {
+        Op::ClaimCommit
+    } else {
+        Op::ClaimAbort
+    }
+}
+
+// ---- shared (concurrent) appender: access 0 = tail fetch-add, 1 = -length, 2 = header, 3 = payload / type / flags ...
+// @verif tier=quick unwind=5
+crash_points!(c03_crash_append_unfragmented_tail0_len40, false, Op::Unfrag, 0, 40, 3);
+// @verif tier=thorough unwind=5
+crash_points!(c03_crash_append_unfragmented_tail96_len33, false, Op::Unfrag, 96, 33, 3);
+// @verif tier=quick unwind=5
+crash_points!(c03_crash_append_fragmented_tail96_len64, false, Op::Frag, 96, 64, 3);
+// @verif tier=quick unwind=5
+crash_points!(c03_crash_append_fragmented_tail0_len96, false, Op::Frag, 0, 96, 3);
+// @verif tier=quick unwind=5
+crash_points!(c03_crash_claim_commit_or_abort_tail96_len40, false, commit_or_abort(), 96, 40, 3);
+// @verif tier=quick unwind=5
+crash_points!(c03_crash_padding_unfragmented_tail224_len40, false, Op::Unfrag, 224, 40, 3);
+// @verif tier=thorough unwind=5
+crash_points!(c03_crash_padding_fragmented_tail160_len96, false, Op::Frag, 160, 96, 3);
+// @verif tier=thorough unwind=5
+crash_points!(c03_crash_padding_claim_tail192_len40, false, Op::ClaimCommit, 192, 40, 3);
+
+// ---- exclusive appender: access 0 = release store of the raw tail, then as above
+// @verif tier=quick unwind=5
+crash_points!(c03_crash_exclusive_append_unfragmented_tail96_len40, true, Op::Unfrag, 96, 40, 3);
+// @verif tier=quick unwind=5
+crash_points!(c03_crash_exclusive_append_fragmented_tail64_len96, true, Op::Frag, 64, 96, 3);
+// @verif tier=thorough unwind=5
+crash_points!(c03_crash_exclusive_append_fragmented_tail32_len70, true, Op::Frag, 32, 70, 3);
+// @verif tier=quick unwind=5
+crash_points!(c03_crash_exclusive_claim_commit_or_abort_tail0_len33, true, commit_or_abort(), 0, 33, 3);
+// @verif tier=quick unwind=5
+crash_points!(c03_crash_exclusive_padding_unfragmented_tail224_len40, true, Op::Unfrag, 224, 40, 3);
+// @verif tier=thorough unwind=5
+crash_points!(c03_crash_exclusive_padding_fragmented_tail128_len96, true, Op::Frag, 128, 96, 3);
+// @verif tier=thorough unwind=5
+crash_points!(c03_crash_exclusive_padding_claim_tail224_len1, true, Op::ClaimCommit, 224, 1, 3);
+
+/// Broken twin: claims that a committed fragment still carries the header writer's default flags. The second fragment
+/// of a 2-fragment message has flags END only, so the solver must refute this (shows `commit_complete`'s "positive
+/// implies final header" clause is reachable and not vacuous).
+// @verif tier=quick unwind=5 twin=1
+#[kani::proof]
+fn c03_twin_committed_fragment_keeps_default_flags() {
+    pretouch();
+    let (tail, len) = (96, 64);
+    let mut l = log_zero_beyond(tail);
+    let mut src: [u8; 96] = kani::any();
+    let k: u32 = kani::any();
+    kani::assume(k <= KMAX);
+    run_op(&mut l, false, Op::Frag, tail, &mut src, len, k, u32::MAX, None, false);
+    let second = tail as usize + 64;
+    if rd_i32(&l.term.0, second) > 0 {
+        assert!(l.term.0[second + 5] == (BEGIN | END), "C03: TWIN (false on purpose) a committed second fragment still has the unfragmented default flags");
+    }
+}
+
+// ---------------------------------------------------------------------------------------------------------------------
+// Ordering-class monitor, producer side. The trace holds (address, length, class, is_write) of every top-level access.
+
+fn is_len_store(a: hook::Access, at: usize) -> bool {
+    a.is_write && a.addr == at && a.len == 4 && a.kind == hook::RELEASE
+}
+
+/// Discipline on one frame [f, f+aligned) of the term at `base`: returns (index of first store, index of last store).
+fn mon_writer_frame(base: usize, f: usize, aligned: usize) -> (usize, usize) {
+    let n = hook::trace_len();
+    let (lo, hi) = (base + f, base + f + aligned);
+    let mut first = hook::TR;
+    let mut last = hook::TR;
+    let mut len_stores = 0;
+    let mut i = 0;
+    while i < n {
+        let a = hook::trace_at(i);
+        if a.is_write && a.addr < hi && a.addr + a.len > lo {
+            assert!(a.addr >= lo && a.addr + a.len <= hi, "C03: a store that touches a frame stays inside that frame");
+            if first == hook::TR {
+                first = i;
+            }
+            last = i;
+            if a.addr < lo + 4 {
+                len_stores += 1;
+                assert!(is_len_store(a, lo), "C03: the length word is only ever stored as a whole 32-bit word with release ordering");
+            } else {
+                assert!(a.kind == hook::PLAIN, "C03: header and payload bytes are written with plain stores (ordered by the release store of the length word)");
+            }
+        }
+        i += 1;
+    }
+    assert!(first < hook::TR && is_len_store(hook::trace_at(first), lo), "C03: the first store into a frame is the release store of its (negative) length word");
+    assert!(last != first && is_len_store(hook::trace_at(last), lo), "C03: the last store into a frame is the release store of its (positive) length word: every plain store to header and payload happens-before it and nothing is written afterwards");
+    assert!(len_stores == 2, "C03: the length word is stored exactly twice (claim, commit): no early commit in between");
+    (first, last)
+}
+
+macro_rules! order_append {
+    ($name:ident, $excl:expr, $op:expr, $tail:expr, $len:expr) => {
+        #[kani::proof]
+        fn $name() {
+            pretouch();
+            let (excl, op, tail, len): (bool, Op, i32, i32) = ($excl, $op, $tail, $len);
+            let mut l = log_zero_beyond(tail);
+            let mut src: [u8; 96] = kani::any();
+            let p = plan(op, tail, len);
+            let n = run_op(&mut l, excl, op, tail, &mut src, len, u32::MAX, u32::MAX, None, true);
+            assert!((n as usize) < hook::TR && hook::trace_len() == n as usize, "C03: harness bound: the whole operation fits the trace");
+            let base = l.term.0.as_ptr() as usize;
+            let meta = l.meta.0.as_ptr() as usize;
+            // space is claimed (tail moved with an atomic RMW / the single writer's release store) before any frame byte is stored
+            let a0 = hook::trace_at(0);
+            assert!(a0.is_write && a0.addr == meta && a0.len == 8 && a0.kind == (if excl { hook::RELEASE } else { hook::RMW }), "C03: the first access of an append moves the raw tail (atomic RMW for concurrent publishers, release store for the exclusive one)");
+            let mut prev_last = 0;
+            let mut i = 0;
+            while i < p.ns {
+                let s = p.slots[i];
+                let aligned = if p.padding { T - s.off } else { align32(s.flen as i64) as usize };
+                let (first, last) = mon_writer_frame(base, s.off, aligned);
+                assert!(first > prev_last, "C03: a frame is only touched after the previous frame of the message was committed (stream order)");
+                prev_last = last;
+                i += 1;
+            }
+            assert!(prev_last == n as usize - 1, "C03: the commit of the last frame is the final access of the operation");
+            let committed = commit_complete(&l, &p, &src);
+            kani::cover!(committed == p.ns, "[must] complete append observed");
+        }
+    };
+}
+
+// @verif tier=quick unwind=5 unwindset=mon_writer_frame:26
+order_append!(c03_order_append_unfragmented, false, Op::Unfrag, 96, 40);
+// @verif tier=quick unwind=5 unwindset=mon_writer_frame:26
+order_append!(c03_order_append_fragmented_3_frames, false, Op::Frag, 0, 96);
+// @verif tier=quick unwind=5 unwindset=mon_writer_frame:26
+order_append!(c03_order_claim_commit_or_abort, false, commit_or_abort(), 0, 40);
+// @verif tier=quick unwind=5 unwindset=mon_writer_frame:26
+order_append!(c03_order_padding, false, Op::Unfrag, 224, 40);
+// @verif tier=quick unwind=5 unwindset=mon_writer_frame:26
+order_append!(c03_order_exclusive_append_unfragmented, true, Op::Unfrag, 0, 33);
+// @verif tier=quick unwind=5 unwindset=mon_writer_frame:26
+order_append!(c03_order_exclusive_append_fragmented_3_frames, true, Op::Frag, 64, 70);
+// @verif tier=thorough unwind=5 unwindset=mon_writer_frame:26
+order_append!(c03_order_exclusive_claim_commit_or_abort, true, commit_or_abort(), 96, 40);
+// @verif tier=thorough unwind=5 unwindset=mon_writer_frame:26
+order_append!(c03_order_exclusive_padding, true, Op::Frag, 192, 64);
+
+// ---------------------------------------------------------------------------------------------------------------------
+// Consumer side: `term_reader::read` over a term whose leading frames are committed and whose EVERY other byte is
+// arbitrary (a publisher may be anywhere inside an append, or dead): only the next frame's length word is known to be
+// non-positive. Result, handler calls and the ordering-class discipline of the reader's loads are decided together.
+
+#[derive(Copy, Clone)]
+struct Call {
+    off: i32,
+    len: i32,
+    hdr_off: i32,
+    frame_len: i32,
+    flags: u8,
+    ty: u16,
+    session: i32,
+    term_id: i32,
+    reserved: i64,
+    byte: u8,
+}
+
+const NO_CALL: Call = Call { off: -1, len: -1, hdr_off: -1, frame_len: -1, flags: 0, ty: 0, session: 0, term_id: 0, reserved: 0, byte: 0 };
+
+/// Reader-side discipline over the recorded trace. `frames[..nf]` = committed frames (offset, frame length), `u` = offset
+/// of the first uncommitted frame (== T if the term is full).
+fn mon_reader(base: usize, frames: &[(usize, i32); 2], nf: usize, u: usize) -> usize {
+    let n = hook::trace_len();
+    let mut acquired = [false; 2];
+    let mut plain_loads = 0;
+    let mut i = 0;
+    while i < n {
+        let a = hook::trace_at(i);
+        let rel = a.addr.wrapping_sub(base);
+        if rel < T {
+            assert!(!a.is_write, "C03: a reader never stores into the term");
+            if rel + a.len > u {
+                assert!(rel == u && a.len == 4 && a.kind == hook::ACQUIRE, "C03: at or beyond the first uncommitted frame the reader loads nothing but that frame's length word, with acquire ordering");
+            } else {
+                let c = if nf > 1 && rel >= frames[1].0 { 1 } else { 0 };
+                let (f, flen) = frames[c];
+                assert!(nf > 0 && rel >= f && rel + a.len <= f + flen as usize, "C03: every load of the reader stays inside the written bytes of a committed frame");
+                if rel == f && a.len == 4 && a.kind == hook::ACQUIRE {
+                    acquired[c] = true;
+                } else {
+                    assert!(acquired[c], "C03: every plain load of a frame byte comes after an acquire load of that frame's (positive) length word");
+                    plain_loads += 1;
+                }
+            }
+        }
+        i += 1;
+    }
+    plain_loads
+}
+
+macro_rules! read_havoc {
+    ($name:ident, $start:expr, $nf:expr, [$(($off:expr, $flen:expr)),*], $u:expr) => {
+        #[kani::proof]
+        fn $name() {
+            pretouch();
+            let frames: [(usize, i32); 2] = [$(($off, $flen)),*];
+            let nf: usize = $nf;
+            let u: usize = $u;
+            let start: i32 = $start;
+            // every byte of the term is symbolic ...
+            let mut m: Mem<T> = Mem::any();
+            // ... except: committed frames have their positive length word and a DATA or PAD type,
+            let mut tys = [DATA; 2];
+            let mut i = 0;
+            while i < nf {
+                let (off, flen) = frames[i];
+                m.0[off..off + 4].copy_from_slice(&flen.to_le_bytes());
+                let ty: u16 = kani::any();
+                kani::assume(ty == DATA || ty == PAD);
+                m.0[off + 6..off + 8].copy_from_slice(&ty.to_le_bytes());
+                tys[i] = ty;
+                i += 1;
+            }
+            // ... and the next frame's length word is zero (unclaimed) or negative (claimed, publisher possibly dead).
+            if u < T {
+                let z: i32 = kani::any();
+                kani::assume(z <= 0);
+                m.0[u..u + 4].copy_from_slice(&z.to_le_bytes());
+            }
+            let snap = m.0;
+            let limit: i32 = kani::any();
+            let probe: i32 = kani::any();
+            kani::assume(0 <= probe && probe < 64);
+            let mut calls = [NO_CALL; 2];
+            let mut ncalls: usize = 0;
+            let mut handler = |buf: &AtomicBuffer, off: i32, len: i32, h: &Header| {
+                if ncalls < 2 {
+                    let byte = if probe < len { buf.get::<u8>(off + probe) } else { 0 };
+                    calls[ncalls] = Call { off, len, hdr_off: h.offset(), frame_len: h.frame_length(), flags: h.flags(), ty: h.frame_type(), session: h.session_id(), term_id: h.term_id(), reserved: h.reserved_value(), byte };
+                }
+                ncalls += 1;
+            };
+            let mut header = Header::new(kani::any(), T as i32);
+            hook::begin(u32::MAX, u32::MAX, None, true);
+            let out = term_reader::read(m.buf(), start, &mut handler, limit, &mut header);
+            let n = hook::end();
+            assert!((n as usize) < hook::TR && hook::trace_len() == n as usize, "C03: harness bound: the whole read fits the trace");
+
+            // reference walk over the committed prefix (protocol: stop at the limit, skip padding, stop at length <= 0)
+            let mut exp = [0usize; 2];
+            let mut exp_n: usize = 0;
+            let mut exp_off: usize = start as usize;
+            let mut i = 0;
+            while i < nf {
+                let (off, flen) = frames[i];
+                if off >= start as usize && off == exp_off && (exp_n as i64) < limit as i64 {
+                    exp_off = off + align32(flen as i64) as usize;
+                    if tys[i] != PAD {
+                        exp[exp_n] = i;
+                        exp_n += 1;
+                    }
+                }
+                i += 1;
+            }
+            assert!(exp_off <= u, "C03: harness: the committed prefix ends at the first uncommitted frame");
+            assert!(out.offset as usize == exp_off, "C03: the reader's offset never advances past a frame that is not committed (and stops at the fragment limit)");
+            assert!(out.fragments_read as usize == exp_n && ncalls == exp_n, "C03: the handler is called exactly once per committed data frame within the limit, never for garbage behind it");
+            let c: usize = kani::any();
+            kani::assume(c < 2);
+            if c < exp_n {
+                let (off, flen) = frames[exp[c]];
+                let g = calls[c];
+                assert!(g.off == off as i32 + 32 && g.len == flen - 32 && g.hdr_off == off as i32, "C03: the fragment handed over is the committed frame's payload range, in stream order");
+                assert!(g.frame_len == flen && g.ty == DATA && g.flags == snap[off + 5] && g.session == rd_i32(&snap, off + 12) && g.term_id == rd_i32(&snap, off + 20) && g.reserved == rd_i64(&snap, off + 24), "C03: the header view shows the committed frame's header fields");
+                if probe < flen - 32 {
+                    assert!(g.byte == snap[off + 32 + probe as usize], "C03: the payload handed over is the committed frame's payload");
+                }
+            }
+            let j: usize = kani::any();
+            kani::assume(j < T);
+            assert!(m.0[j] == snap[j], "C03: reading leaves the term untouched");
+            let plain = mon_reader(m.0.as_ptr() as usize, &frames, nf, u);
+            kani::cover!(exp_n == nf && exp_off == u, "[must] every committed frame delivered, stopped at the uncommitted one");
+            kani::cover!(nf == 0 || exp_n < nf, "[must] fewer fragments than committed frames (limit or padding)");
+            kani::cover!(nf == 0 || plain > 0, "[must] plain loads of committed frame bytes observed");
+            kani::cover!(u == T || rd_i32(&snap, u) < 0, "[must] claimed-but-uncommitted frame behind the prefix");
+        }
+    };
+}
+
+// @verif tier=quick unwind=5 unwindset=mon_reader:26
+read_havoc!(c03_read_havoc_tail_no_committed_frame, 0, 0, [(0, 0), (0, 0)], 0);
+// @verif tier=quick unwind=5 unwindset=mon_reader:26
+read_havoc!(c03_read_havoc_tail_one_committed_frame, 0, 1, [(0, 49), (0, 0)], 64);
+// @verif tier=quick unwind=5 unwindset=mon_reader:26
+read_havoc!(c03_read_havoc_tail_two_committed_frames, 0, 2, [(0, 72), (96, 37)], 160);
+// @verif tier=thorough unwind=5 unwindset=mon_reader:26
+read_havoc!(c03_read_havoc_tail_from_offset_64, 64, 2, [(64, 64), (128, 33)], 192);
+// @verif tier=thorough unwind=5 unwindset=mon_reader:26
+read_havoc!(c03_read_term_full, 128, 2, [(128, 64), (192, 64)], 256);
+
+// ---------------------------------------------------------------------------------------------------------------------
+// Interference: publisher A's append with a COMPLETE append of publisher B (second TermAppender over the same term and
+// meta buffers, as two threads sharing one Publication) injected just before A's j-th access, j symbolic.
+
+const LEN_A: i32 = 40; // frame 72, aligned 96
+const LEN_B: i32 = 20; // frame 52, aligned 64
+const TAIL_AB: i32 = 32;
+
+struct Party {
+    magic: u64,
+    log: *mut Log,
+    src_b: *mut u8,
+    ran: u32,
+    b_off: i32,
+}
+
+// distinctive non-zero initialiser: see HARNESS_GUIDE "static mut" pitfall
+static mut PARTY: Party = Party { magic: 0x5a5a_4330_335f_4232, log: std::ptr::null_mut(), src_b: std::ptr::null_mut(), ran: 0x4300, b_off: -0x4303 };
+
+/// What any reader may rely on for a frame slot at `off`: 0 / -len / +len, and +len implies header and payload final.
+fn slot_sound(l: &Log, off: usize, len: i32, src: *const u8) -> bool {
+    let w = rd_i32(&l.term.0, off);
+    let j: usize = kani::any();
+    kani::assume(j < len as usize);
+    (w == 0 || w == -(32 + len) || w == 32 + len)
+        && (w <= 0 || (l.frame_ok(off, 32 + len, DATA, BEGIN | END, Some(reserved_for(off as i32, 32 + len))) && l.term.0[off + 32 + j] == unsafe { *src.add(j) }))
+}
+
+static mut SRC_A_PTR: *const u8 = 0x4305 as *const u8;
+
+fn publisher_b() {
+    unsafe {
+        let l = &mut *PARTY.log;
+        let hw = HeaderWriter::new(l.hdr.buf());
+        let b = TermAppender::new(l.term.buf(), l.meta.buf(), 0);
+        let r = b.append_unfragmented_message(&hw, &AtomicBuffer::new(PARTY.src_b, 32), 0, LEN_B, supplier, l.term_id);
+        let end = vok!(r, "C03: B's append with the matching term id returns a result");
+        let b_off = end - 64;
+        assert!(b_off == TAIL_AB || b_off == TAIL_AB + 96, "C03: B's frame lies directly at the tail or directly behind A's claimed range");
+        PARTY.b_off = b_off;
+        PARTY.ran += 1;
+        // the moment B has returned (A is still somewhere inside its append): a reader must not be misled
+        let a_off = if b_off == TAIL_AB { TAIL_AB + 64 } else { TAIL_AB };
+        assert!(rd_i32(&l.term.0, b_off as usize) == 32 + LEN_B && slot_sound(l, b_off as usize, LEN_B, PARTY.src_b), "C03: B's frame is complete when B returns, whatever A has done so far");
+        assert!(slot_sound(l, a_off as usize, LEN_A, SRC_A_PTR), "C03: while A is preempted its slot shows 0 or -length, or +length with header and payload final");
+    }
+}
+
+// @verif tier=quick unwind=5
+#[kani::proof]
+fn c03_interference_complete_append_of_b_inside_a() {
+    pretouch();
+    let mut l = log_zero_beyond(TAIL_AB);
+    let mut src_a: [u8; 96] = kani::any();
+    let mut src_b: [u8; 32] = kani::any();
+    let j: u32 = kani::any();
+    kani::assume(j <= 6); // A performs accesses 0..=5; j == 6: B never runs
+    unsafe {
+        PARTY.log = &mut l as *mut Log;
+        PARTY.src_b = src_b.as_mut_ptr();
+        PARTY.ran = 0;
+        SRC_A_PTR = src_a.as_ptr();
+    }
+    let n = run_op(&mut l, false, Op::Unfrag, TAIL_AB, &mut src_a, LEN_A, u32::MAX, j, Some(publisher_b as fn()), false);
+    assert!(n == 6, "C03: harness: A's unfragmented append performs 6 shared-memory accesses");
+    let (ran, b_off) = unsafe { (PARTY.ran, PARTY.b_off) };
+    assert!(ran == if j < 6 { 1 } else { 0 }, "C03: harness: B ran exactly once iff it was scheduled inside A");
+    if ran == 1 {
+        let a_off = if j == 0 { TAIL_AB + 64 } else { TAIL_AB };
+        assert!(b_off == if j == 0 { TAIL_AB } else { TAIL_AB + 96 }, "C03: frames are laid out in the order of the tail fetch-adds: disjoint ranges");
+        assert!(rd_i32(&l.term.0, a_off as usize) == 32 + LEN_A && slot_sound(&l, a_off as usize, LEN_A, src_a.as_ptr()), "C03: A's frame is complete and intact after both appends");
+        assert!(rd_i32(&l.term.0, b_off as usize) == 32 + LEN_B && slot_sound(&l, b_off as usize, LEN_B, src_b.as_ptr()), "C03: B's frame is complete and intact after A finished around it");
+        assert!(l.raw_tail() == pack_tail(l.term_id, TAIL_AB + 160), "C03: the tail covers both frames exactly");
+        assert!(l.unchanged_outside(TAIL_AB as usize, TAIL_AB as usize + 160), "C03: nothing outside the two claimed frames is written");
+        // padding bytes between B's frame end (52) and its aligned end (64) stay zero, as do A's (72..96)
+    }
+    kani::cover!(j == 0 && ran == 1, "[must] B entirely before A's tail fetch-add");
+    kani::cover!(j == 3 && ran == 1, "[must] B between A's header and A's payload copy");
+    kani::cover!(j == 5 && ran == 1, "[must] B just before A's commit");
+    kani::cover!(j == 6, "[must] A alone");
+}
